@@ -59,7 +59,7 @@ Lemma unesc_complete : forall w sb d, SBody w sb d ->
   unesc f w (sb ++ jc_quote :: rest) k pend st = JOk (S (k + length sb), str_out st pend sb d).
 Proof.
   intros w sb d HS. induction HS as [| c t d Hc HS IH | ch v t d Hv HS IH | ch h1 h2 h3 h4 t d Hn Hu Hh HS IH
-                                     | ch h1 h2 h3 h4 x1 x2 l1 l2 l3 l4 t d Hn Hu Hh HS IH];
+                                     | ch h1 h2 h3 h4 ch2 l1 l2 l3 l4 t d Hn Hu Hh Hu2 HS IH];
     intros f k pend st rest Hf; (destruct f as [|f]; [cbn in Hf; lia|]).
   - cbn [app unesc has negb rd bind]. rewrite N.eqb_refl. unfold str_out. cbn [length forallb].
     rewrite Nat.add_0_r. destruct st; cbn [has]; [|rewrite app_nil_r]; reflexivity.
@@ -110,11 +110,12 @@ Proof.
     destruct (ch =? jc_n); [discriminate|]. destruct (ch =? jc_f); [discriminate|].
     destruct (ch =? jc_r); [discriminate|].
     unfold is_u in Hu. rewrite Hu.
-    replace (3 <? length (h1 :: h2 :: h3 :: h4 :: x1 :: x2 :: l1 :: l2 :: l3 :: l4 :: t ++ jc_quote :: rest))%nat with true
+    replace (3 <? length (h1 :: h2 :: h3 :: h4 :: jc_bslash :: ch2 :: l1 :: l2 :: l3 :: l4 :: t ++ jc_quote :: rest))%nat with true
       by (symmetry; apply Nat.ltb_lt; cbn; lia).
     rewrite hexrd_4. cbn [bind advn]. unfold is_high in Hh. rewrite Hh. cbn [negb].
-    replace (5 <? length (x1 :: x2 :: l1 :: l2 :: l3 :: l4 :: t ++ jc_quote :: rest))%nat with true
+    replace (5 <? length (jc_bslash :: ch2 :: l1 :: l2 :: l3 :: l4 :: t ++ jc_quote :: rest))%nat with true
       by (symmetry; apply Nat.ltb_lt; cbn; lia).
+    cbn [rd adv bind]. rewrite N.eqb_refl. unfold is_u in Hu2. rewrite Hu2. cbn [andb].
     cbn [bind advn]. rewrite hexrd_4. cbn [bind advn].
     rewrite IH by (cbn in Hf; lia). f_equal. f_equal; [cbn; lia|].
     unfold str_out. unfold pair_code.
@@ -192,14 +193,17 @@ Proof.
     destruct (5 <? length t6)%nat eqn:E5l; [|inversion H].
     apply Nat.ltb_lt in E5l.
     destruct t6 as [|x1 [|x2 [|l1 [|l2 [|l3 [|l4 t12]]]]]]; cbn in E5l; try lia.
+    cbn [rd adv bind] in H.
+    destruct (x1 =? jc_bslash) eqn:Ex1; cbn [andb] in H; [|inversion H]. apply N.eqb_eq in Ex1. subst x1.
+    destruct ((x2 =? jc_cu) || (x2 =? jc_u)) eqn:Ex2; [|inversion H].
     cbn [bind advn] in H. rewrite hexrd_4 in H. cbn [bind advn] in H.
     apply IH in H. destruct H as (sb & d & rest & H1 & H2 & H3 & H4).
-    exists (jc_bslash :: ch :: h1 :: h2 :: h3 :: h4 :: x1 :: x2 :: l1 :: l2 :: l3 :: l4 :: sb),
+    exists (jc_bslash :: ch :: h1 :: h2 :: h3 :: h4 :: jc_bslash :: x2 :: l1 :: l2 :: l3 :: l4 :: sb),
            (to_utf w (pair_code (hex4v h1 h2 h3 h4) (hex4v l1 l2 l3 l4)) ++ d), rest. subst t12.
     split; [reflexivity|]. split.
     - apply SB_pair; try assumption. unfold is_high. apply negb_false_iff in Eh. assumption.
     - split; [cbn; lia|]. subst st'. unfold pair_code.
-      apply (str_out_utf st pend w _ [jc_bslash; ch; h1; h2; h3; h4; x1; x2; l1; l2; l3; l4]); [discriminate|reflexivity]. }
+      apply (str_out_utf st pend w _ [jc_bslash; ch; h1; h2; h3; h4; jc_bslash; x2; l1; l2; l3; l4]); [discriminate|reflexivity]. }
   destruct ((c =? jc_ctl_n) || (c =? jc_ctl_t) || (c =? jc_ctl_r)) eqn:Ec; [inversion H|].
   apply IH in H. destruct H as (sb & d & rest & H1 & H2 & H3 & H4).
   assert (Hraw : raw_ok c = true) by (unfold raw_ok; rewrite Eq, Eb, Ec; reflexivity).
@@ -234,6 +238,7 @@ Proof.
     destruct (5 <? length t6)%nat eqn:E5l; [|discriminate].
     apply Nat.ltb_lt in E5l.
     destruct t6 as [|x1 [|x2 [|l1 [|l2 [|l3 [|l4 t12]]]]]]; cbn in E5l; try lia.
+    cbn [rd adv bind] in H. destruct ((x1 =? jc_bslash) && ((x2 =? jc_cu) || (x2 =? jc_u))); [|discriminate].
     cbn [bind advn] in H. rewrite hexrd_4 in H. cbn [bind advn] in H.
     apply IH in H. cbn. split; [tauto|lia]. }
   destruct ((c =? jc_ctl_n) || (c =? jc_ctl_t) || (c =? jc_ctl_r)); [discriminate|].
@@ -339,4 +344,30 @@ Proof.
   rewrite advn_ok in H by lia. cbn [bind] in H.
   assert (Hl : length (skipn len r) = (length r - len)%nat) by apply skipn_length.
   destruct (has st1); inversion H; subst; lia.
+Qed.
+
+(* D92: a high surrogate escape that is not followed by backslash-u ends the string reader with count 0 (failure),
+   wherever it stands in the string: nothing behind it is looked at beyond the two units of the test *)
+Definition low_escape_follows (t : list N) : bool :=
+  match t with x1 :: x2 :: _ => (x1 =? jc_bslash) && ((x2 =? jc_cu) || (x2 =? jc_u)) | _ => false end.
+
+Lemma unesc_lone_high_rejected : forall f w ch h1 h2 h3 h4 t k pend st,
+  esc_simple ch = None -> is_u ch = true -> is_high (hex4v h1 h2 h3 h4) = true -> low_escape_follows t = false ->
+  unesc (S f) w (jc_bslash :: ch :: h1 :: h2 :: h3 :: h4 :: t) k pend st = JOk (O, st ++ pend).
+Proof.
+  intros f w ch h1 h2 h3 h4 t k pend st Hn Hu Hh Hl.
+  cbn [unesc has negb rd bind adv].
+  assert (Hq : (jc_bslash =? jc_quote) = false) by reflexivity. rewrite Hq, N.eqb_refl.
+  cbn [has negb rd bind adv].
+  unfold esc_simple in Hn.
+  destruct ((ch =? jc_quote) || (ch =? jc_bslash) || (ch =? jc_slash)); [discriminate|].
+  destruct (ch =? jc_b); [discriminate|]. destruct (ch =? jc_t); [discriminate|].
+  destruct (ch =? jc_n); [discriminate|]. destruct (ch =? jc_f); [discriminate|].
+  destruct (ch =? jc_r); [discriminate|].
+  unfold is_u in Hu. rewrite Hu.
+  replace (3 <? length (h1 :: h2 :: h3 :: h4 :: t))%nat with true by (symmetry; apply Nat.ltb_lt; cbn; lia).
+  rewrite hexrd_4. cbn [bind advn]. unfold is_high in Hh. rewrite Hh. cbn [negb].
+  destruct (5 <? length t)%nat eqn:E5; [|reflexivity].
+  apply Nat.ltb_lt in E5. destruct t as [|x1 [|x2 t']]; cbn in E5; try lia.
+  cbn [rd adv bind]. cbn [low_escape_follows] in Hl. rewrite Hl. reflexivity.
 Qed.
